@@ -78,6 +78,13 @@ class Rec:
         self.nviol = 0
         self.samples = []
         self.cap_hit = False
+        self.frontier = {}  # canonical state key -> shortest history reaching it (BFS rounds)
+
+    def push(self, key, history):
+        old = self.frontier.get(key)
+        cand = (len(history), repr(history))
+        if old is None or cand < (len(old), repr(old)):
+            self.frontier[key] = history
 
     # -- cases -----------------------------------------------------------
     def case(self, key, nontrivial=True, sample=None, calls=1):
@@ -144,6 +151,7 @@ class Rec:
             nviol=self.nviol,
             samples=self.samples,
             cap_hit=self.cap_hit,
+            frontier=self.frontier,
         )
 
     def absorb(self, d):
@@ -162,6 +170,8 @@ class Rec:
             if len(self.samples) < 4:
                 self.samples.append(s)
         self.cap_hit = self.cap_hit or d["cap_hit"]
+        for k, h in d.get("frontier", {}).items():
+            self.push(k, h)
 
 
 def compositions(n):
